@@ -366,7 +366,8 @@ def wrap_line(line: str) -> str:
         return line
     # Every piece but the last gets ' =' appended and every continuation line a blank in front (see the join below),
     # therefore the pieces themselves must not be longer than maxlen - 3:
-    line = textwrap.wrap(line, maxlen - 3, subsequent_indent='  ', drop_whitespace=False, replace_whitespace=False)
+    line = textwrap.wrap(line, maxlen - 3, subsequent_indent='  ', drop_whitespace=False, replace_whitespace=False,
+                         break_on_hyphens=False)
     if len(line) > 1:
         newline = []
         for n, ln in enumerate(line):
